@@ -265,6 +265,17 @@ def catalogue(ctx, keys, grid, vals, present, tier_small=False):
             lambda w, a=exlo, b=exhi: seqlist(w.t.keys(lo, hi, a, b)))
         add('keys(excl %s,%s)' % (exlo, exhi), 'range', False,
             lambda w, a=exlo, b=exhi: seqlist(w.t.keys(None, None, a, b)))
+    # every stored key as exclusive upper / lower bound and as maxKey / minKey argument: an exclusive bound
+    # equal to the first key of a bucket (of a subtree) sends the search into the LEFT neighbour, which
+    # may be a ghost (wave 6, seed C05K)
+    for k in present:
+        if k not in probes:
+            add('minKey(%r)' % (k,), 'range', False, lambda w, k=k: w.t.minKey(k))
+            add('maxKey(%r)' % (k,), 'range', False, lambda w, k=k: w.t.maxKey(k))
+        add('keys(max=%r,excludemax)' % (k,), 'range', False,
+            lambda w, k=k: seqlist(w.t.keys(None, k, False, True)))
+        add('keys(min=%r,excludemin)' % (k,), 'range', False,
+            lambda w, k=k: seqlist(w.t.keys(k, None, True, False)))
     if ismap:
         add('items(min)', 'range', False, lambda w: seqlist(w.t.items(probes[0])))
         add('values(max)', 'range', False, lambda w: seqlist(w.t.values(None, probes[-1])))
